@@ -7,6 +7,7 @@ package dnsforward
 // lists; ClientIDs travel in the TLS server name.
 
 import (
+	"bytes"
 	"crypto/ecdsa"
 	"crypto/elliptic"
 	crand "crypto/rand"
@@ -17,6 +18,8 @@ import (
 	"math/big"
 	"math/rand"
 	"net"
+	"net/http"
+	"net/http/httptest"
 	"net/netip"
 	"os"
 	"strings"
@@ -108,6 +111,20 @@ func c03Certificate() (*tls.Certificate, error) {
 	})
 
 	return c03Cert, c03CertErr
+}
+
+// c03TrustedPrefixes converts the trusted_proxies setting; nil stays nil, an
+// explicitly empty list stays empty.
+func c03TrustedPrefixes(in []string) (out []netutil.Prefix) {
+	if in == nil {
+		return nil
+	}
+	out = []netutil.Prefix{}
+	for _, s := range in {
+		out = append(out, netutil.Prefix{Prefix: netip.MustParsePrefix(s)})
+	}
+
+	return out
 }
 
 // c03Wire is a running server with its observers.
@@ -208,6 +225,7 @@ func c03StartWireOnce(l *c03Lists, withDNSCrypt bool) (w *c03Wire, err error) {
 			EDNSClientSubnet:  &EDNSClientSubnet{Enabled: false},
 			ClientsContainer:  EmptyClientsContainer{},
 			HandleDDR:         l.HandleDDR,
+			TrustedProxies:    c03TrustedPrefixes(l.Trusted),
 			AllowedClients:    append([]string{}, l.Allow...),
 			DisallowedClients: append([]string{}, l.Deny...),
 			BlockedHosts:      append([]string{}, l.Hosts...),
@@ -411,12 +429,15 @@ func c03GenWireLists(rng *rand.Rand) *c03Lists {
 
 // c03WireCase is one real request.
 type c03WireCase struct {
-	Transport string `json:"transport"` // udp, tcp, tls, dnscrypt-udp, dnscrypt-tcp
-	Src       string `json:"source_address"`
-	ID        string `json:"client_id,omitempty"`
-	Name      string `json:"qname"`
-	QType     string `json:"qtype"`
-	qtype     uint16
+	Transport string `json:"transport"` // udp, tcp, tls, dnscrypt-udp, dnscrypt-tcp, doh
+	// Fwd is, for DoH, a forwarding header ("Name: address") with which the
+	// peer claims to speak for another client.
+	Fwd   string `json:"forwarding_header,omitempty"`
+	Src   string `json:"source_address"`
+	ID    string `json:"client_id,omitempty"`
+	Name  string `json:"qname"`
+	QType string `json:"qtype"`
+	qtype uint16
 }
 
 // c03WireObs is what was seen on the wire and in the sinks.
@@ -503,6 +524,39 @@ func c03Send(w *c03Wire, c *c03WireCase, fenceNo int, wantReply bool) (o c03Wire
 			break
 		}
 		o.resp = m
+	case "doh":
+		// DNS-over-HTTPS reaches dnsforward through the web server's mux and
+		// Server.ServeHTTP; the request is handed to that entry point with the
+		// peer address, TLS state, path and headers a real one would have.
+		b, _ := req.Pack()
+		path := "/dns-query"
+		if c.ID != "" {
+			path += "/" + c.ID
+		}
+		hr := httptest.NewRequest(http.MethodPost, "https://"+c03SrvName+path, bytes.NewReader(b))
+		hr.RemoteAddr = net.JoinHostPort(c.Src, fmt.Sprint(20000+fenceNo%20000))
+		hr.TLS = &tls.ConnectionState{ServerName: c03SrvName}
+		hr.Header.Set("Content-Type", "application/dns-message")
+		hr.Header.Set("Accept", "application/dns-message")
+		if c.Fwd != "" {
+			name, val, _ := strings.Cut(c.Fwd, ": ")
+			hr.Header.Set(name, val)
+		}
+		rec := httptest.NewRecorder()
+		w.S.ServeHTTP(rec, hr)
+		o.WaitedFor = fmt.Sprintf("handler returned, HTTP status %d", rec.Code)
+		if rec.Body.Len() > 0 {
+			m := &dns.Msg{}
+			if uerr := m.Unpack(rec.Body.Bytes()); uerr != nil {
+				o.Err = fmt.Sprintf("HTTP %d, body of %d bytes is not a DNS message: %v", rec.Code, rec.Body.Len(), uerr)
+			} else {
+				o.GotReply = true
+				o.resp = m
+			}
+		} else {
+			o.Err = fmt.Sprintf("HTTP %d without a body", rec.Code)
+		}
+		o.FenceOK = c03Fence(w, fenceNo)
 	case "dnscrypt-udp", "dnscrypt-tcp":
 		// The encrypted exchange runs while the fence exchange is made; a
 		// request expected to be dropped is given c03DCWait for a reply to
@@ -595,7 +649,7 @@ func c03Send(w *c03Wire, c *c03WireCase, fenceNo int, wantReply bool) (o c03Wire
 
 func TestVerifC03Sockets(t *testing.T) {
 	rep := verifkit.New("C03", "sockets",
-		"case = (access configuration of a running server, transport UDP/TCP/DoT/DNSCrypt-over-UDP/DNSCrypt-over-TCP, source address among the loopback aliases, ClientID in the SNI, unique query name, query type) observed on the client socket and in the upstream / query-log / statistics sinks; non-trivial = some list entry covers the source address or equals the ClientID, or some blocked-host pattern matches the name; distinct by the whole tuple")
+		"case = (access configuration of a running server, transport UDP/TCP/DoT/DNSCrypt-over-UDP/DNSCrypt-over-TCP/DoH (through Server.ServeHTTP, with and without forwarding headers), source address among the loopback aliases, ClientID in the SNI, unique query name, query type) observed on the client socket and in the upstream / query-log / statistics sinks; non-trivial = some list entry covers the source address or equals the ClientID, or some blocked-host pattern matches the name; distinct by the whole tuple")
 	defer func() {
 		if err := rep.Write(); err != nil {
 			t.Fatal(err)
@@ -644,6 +698,8 @@ func TestVerifC03Sockets(t *testing.T) {
 		min   int
 	}{{"udp:refused", 20}, {"tcp:refused", 10}, {"tls:refused", 10}, {"udp:admitted", 20}, {"tcp:admitted", 10}, {"tls:admitted", 10},
 		{"dnscrypt-udp:refused", 5}, {"dnscrypt-tcp:refused", 10}, {"dnscrypt-udp:admitted", 5}, {"dnscrypt-tcp:admitted", 5},
+		{"doh:refused", 20}, {"doh:admitted", 20}, {"doh_forwarding_header_claims_a_client_decided_the_other_way", 20},
+		{"doh_forwarding_header:trusted_proxies_explicitly_empty", 20},
 		{"special_name:refused", 40}, {"ddr_name:refused:handle_ddr=true", 5},
 		{"refused_by_name", 10}, {"refused_by_client", 30}, {"tls_admitted_by_clientid_only", 2}} {
 		if n := rep.ClassCount(need.class); n < need.min {
@@ -655,6 +711,16 @@ func TestVerifC03Sockets(t *testing.T) {
 func c03RunWireConf(rep *verifkit.Report, rng *rand.Rand, idx, perConf int) {
 	l := c03GenWireLists(rng)
 	l.HandleDDR = rng.Intn(4) != 0
+	switch rng.Intn(8) {
+	case 0, 1:
+		// not configured
+	case 2:
+		l.Trusted = []string{"10.0.0.0/8", "192.0.2.0/24"}
+	case 3:
+		l.Trusted = []string{"127.0.0.0/8", "::1/128"}
+	default:
+		l.Trusted = []string{}
+	}
 	allow, ok1 := c03ParseItems(l.Allow)
 	deny, ok2 := c03ParseItems(l.Deny)
 	if !ok1 || !ok2 {
@@ -696,7 +762,7 @@ func c03RunWireConf(rep *verifkit.Report, rng *rand.Rand, idx, perConf int) {
 	both := append(append([]c03Item{}, allow...), deny...)
 
 	for qi := 0; qi < perConf; qi++ {
-		c := &c03WireCase{Transport: []string{"udp", "udp", "udp", "tcp", "tcp", "tls", "tls", "tls", "dnscrypt-udp", "dnscrypt-tcp", "dnscrypt-tcp"}[rng.Intn(11)]}
+		c := &c03WireCase{Transport: []string{"udp", "udp", "udp", "tcp", "tcp", "tls", "tls", "tls", "dnscrypt-udp", "dnscrypt-tcp", "dnscrypt-tcp", "doh", "doh", "doh"}[rng.Intn(14)]}
 		// silent: transports over which a refused request gets no reply at all.
 		silent := c.Transport == "udp" || strings.HasPrefix(c.Transport, "dnscrypt-")
 		// Source: aimed at an entry, or any alias.
@@ -704,7 +770,7 @@ func c03RunWireConf(rep *verifkit.Report, rng *rand.Rand, idx, perConf int) {
 		if a := c03GenAddr(rng, both); a.Is4() && a.As4()[0] == 127 && a.As4()[1] == 0 && a.As4()[2] == 0 && a.As4()[3] >= 2 && a.As4()[3] <= 40 && rng.Intn(4) != 0 {
 			c.Src = a.String()
 		}
-		if c.Transport == "tls" {
+		if c.Transport == "tls" || c.Transport == "doh" {
 			c.ID = c03GenID(rng, both)
 			if rng.Intn(3) == 0 {
 				c.ID = []string{"kid", "tv", "pc-1", "guest"}[rng.Intn(4)]
@@ -751,7 +817,41 @@ func c03RunWireConf(rep *verifkit.Report, rng *rand.Rand, idx, perConf int) {
 		src := netip.MustParseAddr(c.Src)
 		cv := c03DecideClient(allow, deny, src, c.ID)
 		nameBlocked, by, _ := c03NameBlocked(pats, c.Name, c.qtype)
-		specified := cv.Specified || nameBlocked
+		fwdUnspec := false
+		if c.Transport == "doh" && rng.Intn(3) != 0 {
+			// The peer claims to speak for another client: preferably one the
+			// settings treat the other way.
+			claimed := fmt.Sprintf("127.0.0.%d", 2+rng.Intn(39))
+			for try := 0; try < 12; try++ {
+				cand := fmt.Sprintf("127.0.0.%d", 2+rng.Intn(60))
+				if v := c03DecideClient(allow, deny, netip.MustParseAddr(cand), c.ID); v.Specified && cv.Specified && v.Excluded != cv.Excluded {
+					claimed = cand
+					rep.Class("doh_forwarding_header_claims_a_client_decided_the_other_way")
+
+					break
+				}
+			}
+			c.Fwd = []string{"X-Forwarded-For", "X-Real-IP", "True-Client-IP", "CF-Connecting-IP"}[rng.Intn(4)] + ": " + claimed
+			// The header counts only when the peer is a trusted proxy.  What
+			// then happens is dnsproxy's documented behaviour, not part of
+			// this property: counted, not asserted.
+			for _, t := range l.Trusted {
+				if netip.MustParsePrefix(t).Contains(src) {
+					fwdUnspec = true
+				}
+			}
+			switch {
+			case fwdUnspec:
+				rep.Class("doh_forwarding_header_from_a_trusted_proxy")
+			case l.Trusted == nil:
+				rep.Class("doh_forwarding_header:trusted_proxies_not_configured")
+			case len(l.Trusted) == 0:
+				rep.Class("doh_forwarding_header:trusted_proxies_explicitly_empty")
+			default:
+				rep.Class("doh_forwarding_header:peer_not_among_trusted_proxies")
+			}
+		}
+		specified := (cv.Specified || nameBlocked) && !fwdUnspec
 		refused := nameBlocked || (cv.Specified && cv.Excluded)
 
 		o := c03Send(w, c, idx*1000+qi+1, specified && !refused && !special)
@@ -781,6 +881,9 @@ func c03RunWireConf(rep *verifkit.Report, rng *rand.Rand, idx, perConf int) {
 		if !specified {
 			for _, z := range cv.Zones {
 				rep.Unspec(z)
+			}
+			if fwdUnspec {
+				rep.Unspec("DoH forwarding header sent by a trusted proxy")
 			}
 			// Consistency only.
 			if o.Marker && len(o.Upstream) == 0 {
